@@ -37,9 +37,9 @@ depth >= 2 and rhs != 0; distinct by sha1(text, point)."""
 
 # ---- dedicated probes of the KNOWN C defect classes (each group has its own signatures) -----------------------------------------------
 DEFECT_PROBES = {
-    "int-quotient": ["1/4*x", "x*1/4", "x**(1/2)", "x**(3/2)", "(x**2 + 1)**(1/3)", "2/3 + y", "3/2*y", "1/4", "2**(1/2)", "7/2*x - 1/3", "x**(-1/2)", "x**(1/3)", "1/3*x",
+    "int-quotient": ["1/4*x", "1/(1/4)", "x*1/4", "x**(1/2)", "x**(3/2)", "(x**2 + 1)**(1/3)", "2/3 + y", "3/2*y", "1/4", "2**(1/2)", "7/2*x - 1/3", "x**(-1/2)", "x**(1/3)", "1/3*x",
                      "7 / 2 * ContinuousConditional(Gt(x, 1), 2, 3, 0.5)", "7 / 2 * Conditional(Lt(x, y), x, y)", "Conditional(Lt(x, y), 1, 2)/Conditional(Lt(x, 0), 3, 4)", "Lt(x, y)/2",
-                     "1 - 1/4", "(1 + 2)/4*x", "1/(1/4)", "x/3", "x**2/2", "3/x", "(x + 1)/2"],
+                     "1 - 1/4", "(1 + 2)/4*x", "x/3", "x**2/2", "3/x", "(x + 1)/2"],
     "mod-sign": ["Mod(x, 3)", "Mod(-x, 3)", "Mod(x, -3)", "Mod(-x, -3)", "Mod(y, 0.7)", "Mod(x*y, 2) - Mod(x, y)", "abs(Mod(x, 2))", "Mod(x, 2.0)*3.5", "7 / 2 * Mod(x, 2)"],
     "int-abs": ["abs(floor(x))", "abs(floor(x) - 3)", "Abs(floor(x)*2.0)", "abs(floor(x)*floor(y))", "sqrt(abs(floor(x)))"],
     "int-mod": ["Mod(floor(x), 2)", "Mod(floor(x) + 7, 3)"],
